@@ -244,8 +244,43 @@ fn c15_one(gr: &Grammar, text: &str, sh: &str, out: &mut Vec<Violation>, stats: 
     }
 }
 
+/// dependency chains and diamonds of 4..6 definitions: the order in which definitions are
+/// substituted into each other matters only from four links on
+fn c15_fixed() -> Vec<Grammar> {
+    let mut out = vec![];
+    for n in 4..=6usize {
+        for last_defined in [true, false] {
+            for unused_tail in [false, true] {
+                let mut stmts = vec![Stmt::Call("cmd".into(), nt("N0"))];
+                for k in 0..n {
+                    let rhs = if k + 1 < n || !last_defined { G::Seq(vec![lit(&format!("x{k}")), nt(&format!("N{}", k + 1))]) } else { lit("last") };
+                    stmts.push(Stmt::Def(format!("N{k}"), None, rhs));
+                }
+                if unused_tail {
+                    stmts.push(Stmt::Def("Z".into(), None, G::Seq(vec![lit("z"), nt("N2")])));
+                }
+                out.push(Grammar { stmts });
+                // the same definitions written in the opposite order
+                let mut g = out.last().unwrap().clone();
+                g.stmts[1..].reverse();
+                out.push(g);
+            }
+        }
+    }
+    // diamond: A -> B C ; B -> D ; C -> D ; D -> E ; E -> e
+    out.push(Grammar { stmts: vec![
+        Stmt::Call("cmd".into(), nt("A")),
+        Stmt::Def("A".into(), None, G::Seq(vec![nt("B"), nt("C")])),
+        Stmt::Def("B".into(), None, G::Seq(vec![lit("b"), nt("D")])),
+        Stmt::Def("C".into(), None, G::Seq(vec![lit("c"), nt("D")])),
+        Stmt::Def("D".into(), None, G::Seq(vec![lit("d"), nt("E")])),
+        Stmt::Def("E".into(), None, G::Alt(vec![lit("e"), nt("F")])),
+    ] });
+    out
+}
+
 pub fn c15(thorough: bool, seed: u64) -> Report {
-    let mut rep = Report { bound: "2 names (exhaustive: 7 definition kinds x 3 reference positions each) and 3 names incl. `_`/PATH (seeded random) x 4 shells; definition kinds: none / plain literal / plain command / plain referring to the next name / @target / @other shell / plain command + @target".into(), exhaustive: true, ..Default::default() };
+    let mut rep = Report { bound: "2 names (exhaustive: 7 definition kinds x 3 reference positions each) and 3 names incl. `_`/PATH (seeded random), dependency chains of 4..6 definitions in both statement orders and a diamond, x 4 shells; definition kinds: none / plain literal / plain command / plain referring to the next name / @target / @other shell / plain command + @target".into(), exhaustive: true, ..Default::default() };
     let mut stats = BTreeMap::new();
     let names2 = ["A", "B"];
     for k0 in DEFKINDS {
@@ -264,6 +299,14 @@ pub fn c15(thorough: bool, seed: u64) -> Report {
                     }
                 }
             }
+        }
+    }
+    for gr in c15_fixed() {
+        let text = gr.print();
+        for sh in SHELLS {
+            rep.cases += 1;
+            rep.distinct_nontrivial += 1;
+            c15_one(&gr, &text, sh, &mut rep.violations, &mut stats);
         }
     }
     let mut rng = Rng::new(seed.wrapping_add(5));
@@ -435,6 +478,11 @@ pub fn replay(check: &str, args: &[String]) -> i32 {
         _ => {
             // C15: the abstract grammar is needed for the expectation; rebuild by search
             let mut stats = BTreeMap::new();
+            for gr in c15_fixed() {
+                if &gr.print() == text {
+                    c15_one(&gr, text, sh, &mut v, &mut stats);
+                }
+            }
             let pool = ["A", "B", "_", "PATH", "C", "DIRECTORY"];
             'outer: for a in pool {
                 for b in pool {
